@@ -2,7 +2,7 @@ package tar
 
 // Bounded stand-in for property C38 (labelled bounded; never counted as proved):
 // a corpus of adversarial and ordinary archives, and every archive made of the root directory
-// followed by up to 3 entries drawn from an alphabet of directories, files, symlinks (pointing
+// followed by up to 3 entries (thorough: also every 7th sequence of 4) drawn from an alphabet of directories, files, symlinks (pointing
 // inside, outside, absolute), '..'/absolute/empty components and replacements of earlier
 // entries by another kind, is extracted into <base>/target/out. Around the target there is a
 // sentinel tree (<base>/outside with a file and a directory of known content, mode and mtime).
@@ -74,7 +74,7 @@ func TestVerifBoundedC38Adversarial(t *testing.T) {
 	alphabet := []verifC38Entry{
 		{"r/d", dir, "", 0o777, ""}, {"r/d", sym, "../../outside/vdir", 0o777, ""}, {"r/d", sym, "../../outside/victim", 0, ""},
 		{"r/d", file, "", 0o777, "new"}, {"r/d/f", file, "", 0o666, "inner"}, {"r/d/e", dir, "", 0o777, ""},
-		{"r/l", sym, "../../outside", 0, ""}, {"r/l/x", file, "", 0o644, "via-link"}, {"r/l/vdir", dir, "", 0o777, ""},
+		{"r/l", sym, "../../outside", 0, ""}, {"r/l/x", file, "", 0o644, "via-link"}, {"r/l/vdir", dir, "", 0o777, ""}, {"r/l/n/m/f", file, "", 0o644, "deep-below-link"}, {"r/d/n/m/f", file, "", 0o644, "deep"},
 		{"r/abs", sym, "/etc", 0, ""}, {"r/abs/x", file, "", 0o644, "x"},
 		{"r/../escape", file, "", 0o644, "e"}, {"/abs", file, "", 0o644, "a"}, {"r//double", file, "", 0o644, "d"}, {"r/./dot", file, "", 0o644, "d"},
 		{"other/x", file, "", 0o644, "x"}, {"r", sym, "../outside", 0, ""}, {"r/s", sym, "d", 0, ""}, {"r/s/f", file, "", 0o644, "through-inner-link"},
@@ -86,14 +86,13 @@ func TestVerifBoundedC38Adversarial(t *testing.T) {
 		archives = append(archives, []verifC38Entry{rootDir, alphabet[a]})
 		for b := range alphabet {
 			archives = append(archives, []verifC38Entry{rootDir, alphabet[a], alphabet[b]})
-			if os.Getenv("VERIF_TIER") == "thorough" {
-				for c := range alphabet {
-					archives = append(archives, []verifC38Entry{rootDir, alphabet[a], alphabet[b], alphabet[c]})
-				}
-			} else if (a+b)%4 == 0 {
-				for c := range alphabet {
-					if c%3 == 0 {
-						archives = append(archives, []verifC38Entry{rootDir, alphabet[a], alphabet[b], alphabet[c]})
+			for c := range alphabet {
+				archives = append(archives, []verifC38Entry{rootDir, alphabet[a], alphabet[b], alphabet[c]})
+				if os.Getenv("VERIF_TIER") == "thorough" {
+					for d := range alphabet {
+						if (a+b+c+d)%7 == 0 {
+							archives = append(archives, []verifC38Entry{rootDir, alphabet[a], alphabet[b], alphabet[c], alphabet[d]})
+						}
 					}
 				}
 			}
@@ -144,7 +143,7 @@ func TestVerifBoundedC38Adversarial(t *testing.T) {
 			}
 		}
 	}
-	fmt.Printf("BOUNDED-STATS {\"cases\":%d,\"failures\":%d,\"bound\":\"root directory + up to 3 entries over an alphabet of %d adversarial/ordinary entries, target existing or not\"}\n", cases, fails, len(alphabet))
+	fmt.Printf("BOUNDED-STATS {\"cases\":%d,\"failures\":%d,\"bound\":\"root directory + up to 3 entries (thorough: and every 7th sequence of 4) over an alphabet of %d adversarial/ordinary entries, target existing or not\"}\n", cases, fails, len(alphabet))
 	if fails > 0 {
 		t.Fail()
 	}
